@@ -46,6 +46,10 @@ fn transforms() -> Vec<Xf> {
         [3e7, 0., 0., 1e-3, 0., 0.],
         // a magnification of 1e10 (determinant 1e20)
         [1e10, 0., 0., 1e10, 0., 0.],
+        // magnifications whose determinant overflows f32 (9e38; as a rotation x scale the two
+        // products are +inf and -inf)
+        [3e19, 0., 0., 3e19, 0., 0.],
+        [2e19, 2e19, -2e19, 2e19, 2., 0.],
     ]
 }
 
@@ -128,6 +132,8 @@ fn paths() -> Vec<PathSpec> {
         p(vec![M(0., 0.), Q(3e-8, 900., 6e-8, 100.)]),
         // a curve in user units of 1e-10 (for the 1e10 magnification)
         p(vec![M(0., 0.), Q(1e-10, 2e-10, 3e-10, 0.5e-10), C(2e-10, 1e-10, 1e-10, 2e-10, 0., 1e-10)]),
+        // and in units of 1e-19 (for the 3e19 magnifications)
+        p(vec![M(3e-19, 2e-19), Q(1e-18, 3e-19, 3e-19, 6e-19), C(2e-19, 1e-19, 1e-19, 2e-19, 0., 1e-19)]),
     ]
 }
 
